@@ -172,6 +172,9 @@ def popcount(x):
 
 
 def run(c):
+    import gen_funcs
+    for p in gen_funcs.gen_popcount(c.snap)["problems"]:
+        c.proof_failed.append({"translator": p})
     c.prove(["Properties_C18.v"])
     exe = vlib.build_c(c.snap, "drv_dense", "drv_dense.c")
     n = 300 if c.tier == "quick" else 4000
@@ -244,5 +247,5 @@ def run(c):
                      "compared after every op; solve: p x q systems (full rank, rank q-1 by construction, duplicated rows, triangular, p < q, zero right-hand sides -> NULL constant terms), "
                      "symbol lengths 1..9 and 64; popcounts: boundary words, all single bits, all low masks, 3000 random words; distinct = distinct request lines")
     c.cov["samples"] = [dreq[0][:200], sreq[0][:200], hreq[0][:80]]
-    c.cov["partial"] = "solver: 'returns failure only without full column rank' and the SWAR popcounts are decided by the oracle/correspondence, not by a theorem"
+    c.cov["partial"] = "of_hweight_array (the loop over words, 64-bit pairs first) and the UINT8-pointer cast of of_hweight32_table are hand-modelled; row/column weights of the dense model are defined over d_get, the C's use of the popcount helpers for them is covered by the correspondence"
     c.trusted = vlib.BASE_TRUST + ["Dense.v / DenseSolve.v hand-written mirrors of the row-oriented build of of_matrix_dense.c and of of_ml_tool.c"]
